@@ -388,7 +388,8 @@ Theorem authz_verify_sound c nonce m m' :
 Proof.
   intros Hv. unfold authz_verify.
   destruct (generic_verify c m) as [[]|e|] eqn:G; cbn [bind]; try discriminate.
-  destruct (has_key (PS "request") (adel verified_request m) || has_key (PS "id_token_hint") (adel verified_request m));
+  destruct (has_key (PS "request") (adel verified_request m) || has_key (PS "id_token_hint") (adel verified_request m)
+            || has_key (PS "request_uri") (adel verified_request m));
     [discriminate|].
   destruct (authz_rules nonce (adel verified_request m)) as [[]|e|] eqn:R; cbn [bind]; try discriminate.
   intros H. inversion H; subst m'. split; [|exact R].
